@@ -87,7 +87,9 @@ func runVariants(c *Ctx, r *Report) {
 			}
 			defer os.RemoveAll(tmp)
 			wt := filepath.Join(tmp, "repo")
-			if out, err := exec.Command("cp", "-a", repoDir(), wt).CombinedOutput(); err != nil {
+			// the working tree without .git (the repository metadata is not needed and may change under
+			// the copy when worktrees are added or removed meanwhile)
+			if out, err := exec.Command("sh", "-c", `mkdir -p "$1" && cd "$0" && for e in * .[!.]*; do [ "$e" = .git ] || [ ! -e "$e" ] || cp -a "$e" "$1"/ || exit 1; done`, repoDir(), wt).CombinedOutput(); err != nil {
 				res.Outcome, res.Detail = "not-applicable", "copy failed: "+string(out)
 				results[i] = res
 				return
